@@ -98,6 +98,16 @@ func (p *packetIDLimiter) batchRelease(id []packets.PacketID) {
 
 }
 
+// waitForWindowLocked blocks until the number of ids in use is below the limit or
+// the limiter has been closed. It returns false if the limiter has been closed.
+// The caller must hold the lock.
+func (p *packetIDLimiter) waitForWindowLocked() bool {
+	for p.used >= p.limit && !p.exit {
+		p.cond.Wait()
+	}
+	return !p.exit
+}
+
 // markInUsed marks the given id as used.
 func (p *packetIDLimiter) markUsedLocked(id packets.PacketID) {
 	p.used++
